@@ -14,9 +14,16 @@ import copy
 import itertools
 from fractions import Fraction as _Fraction
 
-from .absval import (AIter, RepList, ASuper, Lin, Sym, Opaque, Ch, Run, Rep, AbsStr, AObj, AFunc, AModule, AClass, ABuiltin,
+from .absval import (Sel, AIter, RepList, ASuper, Lin, Sym, Opaque, Ch, Run, Rep, AbsStr, AObj, AFunc, AModule, AClass, ABuiltin,
                      ABound, simplify_str, INF, UnknownStr)
 from .loader import AnalysisError, norm, short, FuncInfo
+
+
+class AMethodCaller:
+    """operator.methodcaller(name, *args, **kwargs)."""
+
+    def __init__(self, name, args, kwargs):
+        self.name, self.args, self.kwargs = name, args, kwargs
 
 
 class CannotDecide(AnalysisError):
@@ -551,6 +558,10 @@ class Interp:
 
     def e_Lambda(self, node, frame):
         fi = FuncInfo(frame.mod, "<lambda>@%d" % node.lineno, node)
+        # the lambda sees the names of the function it is written in, wherever it is called later
+        if not hasattr(self, "_closure_frames"):
+            self._closure_frames = {}
+        self._closure_frames[id(node)] = frame
         return AFunc(fi)
 
     def e_IfExp(self, node, frame):
@@ -1024,6 +1035,10 @@ class Interp:
             return v.a_index(self, idx, node)
         if isinstance(v, AObj) and v.cls is not None and self.repo.find_method(v.cls, "__getitem__") is not None:
             return self.call_method(v, "__getitem__", [idx], {}, node)
+        if isinstance(v, Sel) and isinstance(idx, int) and not isinstance(idx, bool) and v.table \
+                and all(isinstance(r, (tuple, list)) and -len(r) <= idx < len(r) for r in v.table):
+            # a column of the row picked by the symbolic index: the same pick from that column
+            return Sel([r[idx] for r in v.table], v.index)
         if isinstance(idx, slice) and isinstance(v, (list, tuple, str, bytes)):
             return v[idx]
         if isinstance(v, (bytes, bytearray)) and isinstance(idx, int):
@@ -1051,7 +1066,6 @@ class Interp:
             if isinstance(idx, Lin):
                 lo, hi = self.lin_interval(idx)
                 if lo >= -len(v) and hi < len(v):
-                    from .absval import Sel
                     return Sel(list(v), idx)
             if idx is None or isinstance(idx, (float, str, list, tuple, dict, _Fraction)):
                 raise RaiseEx("TypeError", node)  # list indices must be integers or slices
@@ -1293,6 +1307,10 @@ class Interp:
             return self.call_function(fn.fi, [fn.obj] + list(args), kwargs, node)
         if isinstance(fn, ABound):
             return self.call_method(fn.recv, fn.name, args, kwargs, node)
+        if isinstance(fn, AMethodCaller):
+            if len(args) != 1 or kwargs:
+                raise RaiseEx("TypeError", node)
+            return self.call_method(args[0], fn.name, list(fn.args), dict(fn.kwargs), node)
         if isinstance(fn, ABuiltin):
             return self.call_builtin(fn.name, args, kwargs, node)
         if isinstance(fn, AClass):
@@ -1324,24 +1342,33 @@ class Interp:
         fr = Frame(fi, {})
         params = fi.params
         a = fi.node.args
-        if a.vararg or a.kwarg:
-            raise CannotDecide("star-args in %s" % fi.qualname)
         allargs = list(args)
-        if len(allargs) > len(params):
+        positional = [x.arg for x in list(getattr(a, "posonlyargs", [])) + list(a.args)]
+        if a.vararg:
+            # def f(x, *rest): what does not fit the positional parameters is the tuple 'rest'
+            fr.locals[a.vararg.arg] = tuple(allargs[len(positional):])
+            allargs = allargs[:len(positional)]
+        if len(allargs) > len(positional):
             raise RaiseEx("TypeError", node)
-        for p, v in zip(params, allargs):
+        for p, v in zip(positional, allargs):
             fr.locals[p] = v
+        extra = {}
         for k, v in kwargs.items():
-            if k not in params:
+            if k not in params or k in fr.locals:
+                if a.kwarg and k not in params:
+                    extra[k] = v
+                    continue
                 raise RaiseEx("TypeError", node)
             fr.locals[k] = v
+        if a.kwarg:
+            fr.locals[a.kwarg.arg] = extra
         for p, d in fi.defaults.items():
             if p not in fr.locals:
                 fr.locals[p] = self.eval(d, Frame(None, {}, mod=fi.module))
         for p in params:
             if p not in fr.locals:
                 raise RaiseEx("TypeError", node)
-        if fi.parent is not None and hasattr(self, "_closure_frames"):
+        if (fi.parent is not None or isinstance(fi.node, ast.Lambda)) and hasattr(self, "_closure_frames"):
             fr.parent = self._closure_frames.get(id(fi.node))
         is_gen = _is_generator(fi)
         if is_gen:
@@ -1872,11 +1899,18 @@ class Interp:
                 return list(v)
             if isinstance(v, AIter):
                 it = v.items
-                return it if isinstance(it, RepList) else (list(it) if name == "list" else tuple(it))
+                if isinstance(it, RepList):
+                    return it
+                out = list(it) if name == "list" else tuple(it)
+                del it[:]  # consumed
+                return out
             if isinstance(v, RepList):
                 return RepList(v.head, v.period, v.count, v.tail)
             if isinstance(v, (set, frozenset)):
                 return sorted(v, key=repr)
+            if isinstance(v, ABuiltin) and v.name.split(".")[-1] in ("string_types", "integer_types", "binary_type", "text_type"):
+                # six's tuples of types: kept as the one name isinstance() knows
+                return (v,) if name == "tuple" else [v]
             return Opaque(name, args)
         if name in ("any", "all") and args and isinstance(args[0], (list, tuple)):
             for x in args[0]:
@@ -1959,6 +1993,12 @@ class Interp:
                 return (min if name == "min" else max)(keyed, key=lambda kv: kv[0])[1]
         if name == "sorted" and args and isinstance(args[0], (list, tuple)) and not _has_abs(args[0]) and set(kwargs) <= {"reverse"}:
             return sorted(args[0], reverse=bool(kwargs.get("reverse", False)))
+        if name == "divmod" and len(args) == 2 and _has_abs(args) and all(Lin.of(x) is not None for x in args):
+            return (self.binop(ast.FloorDiv, args[0], args[1], node), self.binop(ast.Mod, args[0], args[1], node))
+        if name in ("methodcaller", "ext:operator.methodcaller") and args and isinstance(args[0], str):
+            return AMethodCaller(args[0], list(args[1:]), dict(kwargs))
+        if name in ("tuple", "list") and len(args) == 1 and isinstance(args[0], ABuiltin) and args[0].name.split(".")[-1] in ("string_types", "integer_types"):
+            return (args[0],) if name == "tuple" else [args[0]]
         if name == "divmod" and len(args) == 2 and not _has_abs(args):
             return divmod(*args)
         if name == "reversed" and isinstance(args[0], (list, tuple)):
@@ -1969,7 +2009,11 @@ class Interp:
             return AIter(list(args[0]))
         if name in ("list", "tuple") and args and isinstance(args[0], AIter):
             it = args[0].items
-            return it if isinstance(it, RepList) else (list(it) if name == "list" else tuple(it))
+            if isinstance(it, RepList):
+                return it
+            out = list(it) if name == "list" else tuple(it)
+            del it[:]  # consumed
+            return out
         if name == "list" and args and isinstance(args[0], RepList):
             a0 = args[0]
             return RepList(a0.head, a0.period, a0.count, a0.tail)
@@ -2003,6 +2047,8 @@ class Interp:
             items = args[0].items if isinstance(args[0], AIter) else args[0]
             if isinstance(items, list) or isinstance(items, tuple):
                 if len(items) > 0:
+                    if isinstance(args[0], AIter) and isinstance(items, list):
+                        return items.pop(0)  # the iterator moves on
                     return items[0]
                 if len(args) > 1:
                     return args[1]
@@ -2155,7 +2201,9 @@ class Interp:
                         raise
                 raise CannotDecide("sequence protocol iteration does not end")
         if isinstance(it, AIter) and isinstance(it.items, list):
-            return list(it.items)
+            out = list(it.items)
+            del it.items[:]  # consumed
+            return out
         if isinstance(it, (set, frozenset)):
             return sorted(it, key=repr)
         if isinstance(it, (list, tuple)):
@@ -2420,6 +2468,24 @@ class Interp:
                 i += 1
                 if i > 10000:
                     raise CannotDecide("sequence iteration does not end")
+                self.assign(st.target, item, frame)
+                try:
+                    self.exec_block(st.body, frame)
+                except BreakEx:
+                    broke = True
+                    break
+                except ContinueEx:
+                    continue
+        elif isinstance(it, AIter) and isinstance(it.items, list):
+            # an iterator object is consumed as it is walked: what a loop leaves behind (after break) is what the next
+            # loop over the same object, or next(), sees
+            broke = False
+            n_ = 0
+            while it.items:
+                item = it.items.pop(0)
+                n_ += 1
+                if n_ > 10000:
+                    raise CannotDecide("iterator does not end")
                 self.assign(st.target, item, frame)
                 try:
                     self.exec_block(st.body, frame)
